@@ -48,7 +48,8 @@ theorem validName_head_ne {n : Str} (hn : validName n = true) :
   exact ⟨c, cs, rfl, by intro e; subst e; revert hc; decide, not_space_of_not_stop hc⟩
 
 /-- the serialisation of element content never looks like the beginning of an XML declaration -/
-theorem body_no_decl (fs : List FEv) (h : bodyOK fs = true) (st : SerSt) (hst : st.inCdata = false)
+theorem body_no_decl (dt : Bool) (fs : List FEv) (h : contentOK dt fs = true) (st : SerSt) (hst : st.inCdata = false)
+    (hdt : dt = true → st.haveDoctype = false)
     (out : Str) (hser : serRun st fs = some out) :
     ∀ rest, stripPrefix ['<', '?', 'x', 'm', 'l'] out = some rest → ∃ c r, rest = c :: r ∧ isSpace c = false := by
   intro rest hr
@@ -61,7 +62,7 @@ theorem body_no_decl (fs : List FEv) (h : bodyOK fs = true) (st : SerSt) (hst : 
     rw [serRun_cons] at hser
     cases e with
     | start n a =>
-      simp only [bodyOK, Bool.and_eq_true] at h
+      simp only [contentOK, Bool.and_eq_true] at h
       obtain ⟨c, cs, rfl, hq, _⟩ := validName_head_ne h.1.1
       simp only [serStep, emitStart] at hser
       cases hrun : serRun st es with
@@ -74,7 +75,7 @@ theorem body_no_decl (fs : List FEv) (h : bodyOK fs = true) (st : SerSt) (hst : 
         rw [stripPrefix_decl_second c _ hq] at hr
         cases hr
     | empty n a =>
-      simp only [bodyOK, Bool.and_eq_true] at h
+      simp only [contentOK, Bool.and_eq_true] at h
       obtain ⟨c, cs, rfl, hq, _⟩ := validName_head_ne h.1.1
       simp only [serStep, emitStart] at hser
       cases hrun : serRun st es with
@@ -100,7 +101,7 @@ theorem body_no_decl (fs : List FEv) (h : bodyOK fs = true) (st : SerSt) (hst : 
     | other ev =>
       cases ev with
       | text s safe =>
-        simp only [bodyOK, Bool.and_eq_true, Bool.not_eq_true'] at h
+        simp only [contentOK, Bool.and_eq_true, Bool.not_eq_true'] at h
         obtain ⟨⟨⟨⟨hsafe, hne⟩, hok⟩, _⟩, _⟩ := h
         subst hsafe
         have hs : s ≠ [] := by intro e; simp [e] at hne
@@ -132,7 +133,7 @@ theorem body_no_decl (fs : List FEv) (h : bodyOK fs = true) (st : SerSt) (hst : 
           rw [stripPrefix_decl_second '!' _ (by decide)] at hr
           cases hr
       | pi t d =>
-        simp only [bodyOK, Bool.and_eq_true] at h
+        simp only [contentOK, Bool.and_eq_true] at h
         have hp := h.1
         unfold piOK at hp
         simp only [Bool.and_eq_true, Bool.not_eq_true', decide_eq_true_eq] at hp
@@ -180,19 +181,168 @@ theorem body_no_decl (fs : List FEv) (h : bodyOK fs = true) (st : SerSt) (hst : 
           simp only [List.cons_append] at hr
           rw [stripPrefix_decl_second '!' _ (by decide)] at hr
           cases hr
-      | endCdata => simp [bodyOK] at h
-      | doctype n p s => simp [bodyOK] at h
-      | xmlDecl v e s => simp [bodyOK] at h
-      | startNs p u => simp [bodyOK] at h
-      | endNs p => simp [bodyOK] at h
-      | start t a => simp [bodyOK] at h
-      | end_ t => simp [bodyOK] at h
+      | endCdata => simp [contentOK] at h
+      | doctype n p s =>
+        cases dt with
+        | false => simp [contentOK] at h
+        | true =>
+          simp only [contentOK, Bool.and_eq_true] at h
+          obtain ⟨m, hm1, _, ⟨r0, hm0⟩, _⟩ := doctype_piece n p s h.1.1
+          simp only [serStep, hdt rfl, Bool.false_eq_true, if_false, hm1, Option.map_some] at hser
+          cases hrun : serRun { st with haveDoctype := true } es with
+          | none => rw [hrun] at hser; cases hser
+          | some o =>
+            rw [hrun] at hser
+            simp only [Option.map_some, Option.some.injEq] at hser
+            subst hser
+            rw [hm0] at hr
+            simp only [List.cons_append] at hr
+            rw [stripPrefix_decl_second '!' _ (by decide)] at hr
+            cases hr
+      | xmlDecl v e s => simp [contentOK] at h
+      | startNs p u => simp [contentOK] at h
+      | endNs p => simp [contentOK] at h
+      | start t a => simp [contentOK] at h
+      | end_ t => simp [contentOK] at h
 
-/-- **the tokenizer is a left inverse of the serializer on element content** -/
-theorem tokenize_serRun (fs : List FEv) (h : bodyOK fs = true) :
-    ∃ out, serRun SerSt.init fs = some out ∧ tokenize out = some (fs.map normF) := by
-  obtain ⟨out, r⟩ := tokGo_body fs h SerSt.init rfl
-  exact ⟨out, r.ser, tokenize_of_tokGo out _ r.nocr (body_no_decl fs h SerSt.init rfl out r.ser)
+theorem cr_not_mem_declTail (v : Str) (enc : Option Str) (sa : Int) (h : declOK v enc sa = true) :
+    '\r' ∉ declTail v enc sa := by
+  unfold declOK at h
+  simp only [Bool.and_eq_true] at h
+  have hv : '\r' ∉ v := by
+    intro hm
+    have := h.1.1
+    unfold validVersion at this
+    simp only [Bool.and_eq_true, List.all_eq_true] at this
+    have := this.2 '\r' hm
+    revert this; decide
+  have he : '\r' ∉ encPart enc := by
+    cases enc with
+    | none => simp [encPart]
+    | some e =>
+      have h2 := h.1.2
+      simp only at h2
+      unfold validEncName at h2
+      cases e with
+      | nil => simp at h2
+      | cons c cs =>
+        simp only [Bool.and_eq_true, List.all_eq_true] at h2
+        have hc : c ≠ '\r' := by intro e; subst e; have := h2.1; revert this; decide
+        have hcs : '\r' ∉ cs := by intro hm; have := h2.2 '\r' hm; revert this; decide
+        simp only [encPart, List.isEmpty_cons, Bool.false_eq_true, if_false]
+        exact nm_app (nm_app (by decide) (nm_cons hc hcs)) (by decide)
+  have hs : '\r' ∉ saPart sa := by
+    unfold saPart
+    split
+    · simp
+    · split <;> decide
+  rw [declTail_eq]
+  exact nm_app (nm_app (nm_app (nm_app (nm_app (by decide) hv) (by decide)) he) hs) (by decide)
+
+/-- **the tokenizer is a left inverse of the serializer** on content with at most one DOCTYPE -/
+theorem tokenize_content (fs : List FEv) (h : contentOK true fs = true) (st : SerSt)
+    (hst : st.inCdata = false) (hdt : st.haveDoctype = false) :
+    ∃ out, serRun st fs = some out ∧ tokenize out = some (tokOf fs) := by
+  obtain ⟨out, r⟩ := tokGo_content true fs h st hst (fun _ => hdt)
+  exact ⟨out, r.ser, tokenize_of_tokGo out _ r.nocr (body_no_decl true fs h st hst (fun _ => hdt) out r.ser)
     (r.tok _ (Nat.lt_succ_self _))⟩
+
+/-- … and on whole documents (`docTextOK`) -/
+theorem tokenize_doc (fs : List FEv) (h : docTextOK fs = true) :
+    ∃ out, serRun SerSt.init fs = some out ∧ tokenize out = some (tokOf fs) := by
+  unfold docTextOK at h
+  split at h
+  · rename_i v e sa rest
+    simp only [Bool.and_eq_true, Bool.not_eq_true'] at h
+    obtain ⟨⟨hd, hnt⟩, hc⟩ := h
+    obtain ⟨out', r⟩ := tokGo_content true rest hc { SerSt.init with haveDecl := true } rfl (fun _ => rfl)
+    obtain ⟨w1, w2⟩ := ws_res _ rest out' r hnt
+    have hs := r.ser
+    simp only [SerSt.init] at hs
+    refine ⟨emitDecl v e sa ++ out', by simp [serRun_cons, serStep, SerSt.init, hs], ?_⟩
+    have hcr : '\r' ∉ emitDecl v e sa ++ out' := by
+      rw [emitDecl_eq]
+      exact nm_app (nm_app (by decide) (cr_not_mem_declTail v e sa hd)) r.nocr
+    unfold tokenize
+    simp only [normEol_of_no_cr _ hcr]
+    have e1 : emitDecl v e sa ++ out' = ['<', '?', 'x', 'm', 'l'] ++ (declTail v e sa ++ out') := by
+      rw [emitDecl_eq]; simp
+    rw [e1, stripPrefix_append]
+    have e2 : ∃ r', declTail v e sa ++ out' = ' ' :: r' := by
+      simp only [declTail_eq, List.cons_append, List.append_assoc]
+      exact ⟨_, rfl⟩
+    obtain ⟨r', hr'⟩ := e2
+    simp only [hr', isSpace_sp, if_true]
+    rw [← hr', takeDecl_emit v e sa hd out']
+    simp only
+    rw [w2 _ (Nat.lt_succ_self _)]
+    simp [tokOf]
+  · rename_i hne
+    exact tokenize_content fs h SerSt.init rfl rfl
+
+/-! ### the namespace stage does not see the line breaks of the prolog -/
+
+theorem resolveGo_ws (rst : RSt) (h : rst.open_.isEmpty = true) (es : List FEv) :
+    resolveGo rst (wsTok :: es) = resolveGo rst es := by
+  unfold wsTok
+  rw [resolveGo]
+  simp [h, isSpace]
+
+theorem resolveGo_tokOf : ∀ (fs : List FEv) (rst : RSt),
+    resolveGo rst (tokOf fs) = resolveGo rst (fs.map normF) := by
+  intro fs
+  induction fs with
+  | nil => intro rst; rfl
+  | cons e es ih =>
+    intro rst
+    cases e with
+    | start n a => simp only [tokOf, List.map_cons, normF]; rw [resolveGo, resolveGo]; simp only [ih]
+    | empty n a => simp only [tokOf, List.map_cons, normF]; rw [resolveGo, resolveGo]; simp only [ih]
+    | end_ n => simp only [tokOf, List.map_cons, normF]; rw [resolveGo, resolveGo]; simp only [ih]
+    | other ev =>
+      cases ev with
+      | text s f => simp only [tokOf, List.map_cons, normF]; rw [resolveGo, resolveGo]; simp only [ih]
+      | comment s => simp only [tokOf, List.map_cons, normF]; rw [resolveGo, resolveGo]; simp only [ih]
+      | pi t d => simp only [tokOf, List.map_cons, normF]; rw [resolveGo, resolveGo]; simp only [ih]
+      | startCdata => simp only [tokOf, List.map_cons, normF]; rw [resolveGo, resolveGo]; simp only [ih]
+      | endCdata => simp only [tokOf, List.map_cons, normF]; rw [resolveGo, resolveGo]; simp only [ih]
+      | doctype n p s =>
+        simp only [tokOf, List.map_cons, normF]
+        rw [resolveGo, resolveGo]
+        by_cases hc : (rst.rootSeen || rst.doctypeSeen || !rst.open_.isEmpty) = true
+        · simp [hc]
+        · simp only [hc, Bool.false_eq_true, if_false]
+          have ho : rst.open_.isEmpty = true := by
+            cases h1 : rst.open_.isEmpty <;> simp_all
+          rw [resolveGo_ws _ (by simpa using ho), ih]
+      | xmlDecl v e s => simp only [tokOf, List.map_cons, normF]; simp [resolveGo]
+      | startNs p u => simp only [tokOf, List.map_cons, normF]; simp [resolveGo]
+      | endNs p => simp only [tokOf, List.map_cons, normF]; simp [resolveGo]
+      | start t a => simp only [tokOf, List.map_cons, normF]; simp [resolveGo]
+      | end_ t => simp only [tokOf, List.map_cons, normF]; simp [resolveGo]
+
+theorem resolve_tokOf (fs : List FEv) : resolve (tokOf fs) = resolve (fs.map normF) := by
+  cases fs with
+  | nil => rfl
+  | cons e es =>
+    cases e with
+    | start n a => simp only [tokOf, List.map_cons, normF, resolve]; exact resolveGo_tokOf (FEv.start n a :: es) _
+    | empty n a => simp only [tokOf, List.map_cons, normF, resolve]; exact resolveGo_tokOf (FEv.empty n a :: es) _
+    | end_ n => simp only [tokOf, List.map_cons, normF, resolve]; exact resolveGo_tokOf (FEv.end_ n :: es) _
+    | other ev =>
+      cases ev with
+      | xmlDecl v e s =>
+        simp only [tokOf, List.map_cons, normF, resolve]
+        rw [resolveGo_ws _ rfl, resolveGo_tokOf]
+      | text s f => simp only [tokOf, List.map_cons, normF, resolve]; exact resolveGo_tokOf (FEv.other (.text s f) :: es) _
+      | comment s => simp only [tokOf, List.map_cons, normF, resolve]; exact resolveGo_tokOf (FEv.other (.comment s) :: es) _
+      | pi t d => simp only [tokOf, List.map_cons, normF, resolve]; exact resolveGo_tokOf (FEv.other (.pi t d) :: es) _
+      | startCdata => simp only [tokOf, List.map_cons, normF, resolve]; exact resolveGo_tokOf (FEv.other .startCdata :: es) _
+      | endCdata => simp only [tokOf, List.map_cons, normF, resolve]; exact resolveGo_tokOf (FEv.other .endCdata :: es) _
+      | doctype n p s => simp only [tokOf, List.map_cons, normF, resolve]; exact resolveGo_tokOf (FEv.other (.doctype n p s) :: es) _
+      | startNs p u => simp only [tokOf, List.map_cons, normF, resolve]; exact resolveGo_tokOf (FEv.other (.startNs p u) :: es) _
+      | endNs p => simp only [tokOf, List.map_cons, normF, resolve]; exact resolveGo_tokOf (FEv.other (.endNs p) :: es) _
+      | start t a => simp only [tokOf, List.map_cons, normF, resolve]; exact resolveGo_tokOf (FEv.other (.start t a) :: es) _
+      | end_ t => simp only [tokOf, List.map_cons, normF, resolve]; exact resolveGo_tokOf (FEv.other (.end_ t) :: es) _
 
 end Genshi.Xml
